@@ -208,6 +208,7 @@ type Obligation struct {
 	Output    string
 	QueryFile string
 	Known     *KnownFinding
+	SmallFile string
 	valNames  []string
 	bv        bool
 }
